@@ -45,6 +45,12 @@ def mixed_spelling(c, root_ad):
     return any(transform(k, root_ad) != k for k in keys)
 
 
+def defaults_consistent(c):
+    keys = [k for k, _ in c["tasks"]] + [k for k, _ in c["aliases"]] + [k for k, _ in c["subs"]]
+    return (c["default"] is None or c["default"] in keys) and \
+        all(t in [k for k, _ in c["tasks"]] for _, t in c["aliases"])
+
+
 def tree_has(d, pred):
     return pred(d) or any(tree_has(s, pred) for _, s in d["subs"])
 
@@ -100,7 +106,9 @@ class C10(Prop):
     shard_size = 120
     rule = ("random namespace trees (depth<=3; own aliases, add_task(name=/aliases=/default=), default tasks, default "
             "sub-collections at any level, names with underscores/dashes/leading-trailing underscores, auto-dash "
-            "on/off per collection, 15% trees with colliding bindings) x four views: candidate tokens (every "
+            "on/off per collection, sub-collections and roots that are the explicit `ns` of a module re-imported via "
+            "Collection.from_module / add_collection(module) with either auto-dash setting, 15% trees with colliding "
+            "bindings) x four views: candidate tokens (every "
             "resolvable dotted name, its _/- spelling variants, junk) through `in`, [], Parser(to_contexts()) and "
             "Program.run; --list in flat, nested and json format parsed back; non-trivial = a view of a tree with "
             ">=1 sub-collection holding a task; distinct by (script, view, names)")
@@ -118,7 +126,8 @@ class C10(Prop):
         "trees where bindings inside one collection collide are outside the statement (compared with the model only)",
         "--list-root / --list-depth not exercised",
     ]
-    not_modelled = ["Collection.from_module re-import", "--list-root, --list-depth, help text wrapping",
+    not_modelled = ["from_module of a module *without* explicit namespace (top-level tasks collected by introspection)",
+                    "--list-root, --list-depth, help text wrapping",
                     "task arguments / per-task help"]
 
     def setup(self, tier, seed):
@@ -172,7 +181,12 @@ class C10(Prop):
             spec = ns.gen_coll(rng, rng.choice([1, 2, 2, 3, 3]), ids, name=rng.choice([None, "root", "my_ns"]),
                                clean=clean, share=0.0 if clean else 0.1,
                                p_subdefault=0.1 if plain else 0.45, p_extra=0.0 if plain else 0.25,
-                               p_rename=rng.choice([0.0, 0.3]))
+                               p_rename=rng.choice([0.0, 0.3]), p_mod=rng.choice([0.0, 0.0, 0.35]),
+                               p_default=rng.choice([0.5, 0.9]))
+            if rng.random() < 0.2 and spec["items"]:
+                # the root is the explicit namespace of a module re-imported by from_module
+                # (what Program.load_collection does, with tasks.auto_dash_names from the config)
+                spec = ns.wrap_module(rng, dict(spec, name=rng.choice([None, "root_ns"])))
             for c in self._cases_for(rng, spec):
                 yield c
                 out += 1
@@ -199,6 +213,14 @@ class C10(Prop):
                             "items": [{"task": t(1, "top"), "bind": None, "aliases": [], "default": None},
                                       {"coll": sub, "bind": None, "default": d_sub}]}
                     yield from self._cases_for(rng, root)
+                    if not own_al and not bound_al:
+                        # the same trees with sub / the root re-imported from a module's explicit ns
+                        for ad_mod in (None, True, False):
+                            msub = {"module": "tasks_mod", "ad": ad_mod, "ns": sub}
+                            yield from self._cases_for(rng, dict(root, items=[root["items"][0],
+                                                                              {"coll": msub, "bind": None, "default": d_sub}]))
+                            yield from self._cases_for(rng, {"module": "tasks", "ad": ad_mod,
+                                                             "ns": dict(sub, name=None)})
 
     # ---- implementation ----------------------------------------------------
     def run_impl(self, case):
@@ -286,6 +308,8 @@ class C10(Prop):
         if "ok" not in obs["state"]:
             return None
         d = obs["state"]["ok"]
+        if tree_has(d, lambda c: not defaults_consistent(c)):
+            return None     # no listed finding produces a default that names nothing
         if case["view"] == "names":
             if not case["names"]:
                 return None
@@ -296,7 +320,9 @@ class C10(Prop):
             return None
         if tree_has(d, lambda c: bool(binding_aliases(c))):
             return "F-C10b"
-        if tree_has(d, lambda c: mixed_spelling(c, d["auto_dash"])):
+        if not tree_has(d, lambda c: not defaults_consistent(c)) and \
+                tree_has(d, lambda c: mixed_spelling(c, d["auto_dash"])):
+            # narrow: the only thing wrong is the spelling of names below the root
             return "F-C10d"
         if case["view"] == "json" and tree_has(d, renamed):
             return "F-C10c"
